@@ -12,7 +12,7 @@ def prep_challenger(inp, out_prefix):
         except Exception:
             continue
         if d.get("ev") in ("observe", "sample", "clear"):
-            inst.setdefault((d["tid"], d["id"]), []).append(d)
+            inst.setdefault((d.get("pid", 0), d["tid"], d["id"]), []).append(d)
     classes = collections.defaultdict(list)
     for key, evs in inst.items():
         base = any(e["once"] for e in evs)
@@ -44,13 +44,13 @@ def prep_optimizer(inp, out):
         except Exception:
             continue
         if d.get("ev") in ("optimize_begin", "dedup_remove", "dedup_keep", "fuse_candidate"):
-            per.setdefault(d["tid"], []).append(d)
+            per.setdefault((d.get("pid", 0), d["tid"]), []).append(d)
     n = 0
     with open(out, "w") as f:
         for tid, evs in per.items():
             # a thread's stream may start in the middle of nothing: always begins with optimize_begin
             for e in evs:
-                f.write(json.dumps({k: v for k, v in e.items() if k not in ("seq", "tid")}) + "\n")
+                f.write(json.dumps({k: v for k, v in e.items() if k not in ("seq", "tid", "pid")}) + "\n")
                 n += 1
     return n
 
@@ -67,7 +67,8 @@ def prep_runner(inp, out, max_events=60000):
         except Exception:
             continue
         if d.get("ev") in RUNNER_EVENTS:
-            per.setdefault(d["rid"], []).append(d)
+            # instance ids restart in every process (the test binaries of one `cargo test` append to one file)
+            per.setdefault((d.get("pid", 0), d["rid"]), []).append(d)
     n = inst = 0
     outcomes = collections.Counter()
     with open(out, "w") as f:
@@ -79,6 +80,6 @@ def prep_runner(inp, out, max_events=60000):
             for e in evs:
                 if e["ev"] == "r_end":
                     outcomes[e["res"]] += 1
-                f.write(json.dumps({k: v for k, v in e.items() if k not in ("seq", "tid", "rid")}) + "\n")
+                f.write(json.dumps({k: v for k, v in e.items() if k not in ("seq", "tid", "rid", "pid")}) + "\n")
                 n += 1
     return {"events": n, "instances": inst, "outcomes": dict(outcomes)}
